@@ -24,15 +24,16 @@ LEVEL_TEXT = ('static analysis: (D1) copy-on-write lost-write rule over cnvlib/s
               'symbolic bins: per segment weight = sum of bin weights, depth = weight-averaged depth (0 when the weights sum to 0; plain count / '
               'mean without a weight column), gene = ordered distinct names outside the ignored / antitarget names (a name recurring after '
               "another gene is listed once), over iter_slices(bins, segments, 'outer', keep_empty=False) taken after the endpoints were stretched"
-              ' (so filtered edge bins are included); segment_none: first start, last end, probes = number of bins, log2 = segment_mean (weight-'
-              'averaged, plain mean when no weight is positive); (D4) every name in SEGMENT_METHODS selects a branch of _do_segmentation (none '
-              'falls through to the error), the CLI choices are that tuple, (D5) do_segmentation interpreted for every method x 1 / 3 processes x'
-              ' save_dataframe with the pool, by_arm, the worker and concat stubbed: none / haar / cbs segment every arm exactly once, in order, '
-              'with every option of the caller (the worker stub binds its arguments like the real signature), the parts are combined in arm order'
-              ' through GenomicArray.concat (which sorts), the R data-frame strings are stitched in that order; flasso / hmm* segment the whole '
-              'array once; an unknown method raises; pool results are consumed through Executor.map; (D6) neither do_segmentation nor '
-              "_do_segmentation may mutate the caller's array (effects fix-point). Does not decide sortedness / non-overlap / probe sums of haar "
-              'and HMM output, nor which bins the outlier filter drops.')
+              " (so filtered edge bins are included; the segment table's row labels may repeat); segment_none: first start, last end, probes = "
+              'number of bins, log2 = segment_mean (weight-averaged, plain mean when no weight is positive); (D4) every name in SEGMENT_METHODS '
+              'selects a branch of _do_segmentation (none falls through to the error), the CLI choices are that tuple, (D5) do_segmentation '
+              'interpreted for every method x 1 / 3 processes x save_dataframe with the pool, by_arm, the worker and concat stubbed: none / haar '
+              '/ cbs segment every arm exactly once, in order, with every option of the caller (the worker stub binds its arguments like the real'
+              ' signature), the parts are combined in arm order through GenomicArray.concat (which sorts), the R data-frame strings are stitched '
+              'in that order; flasso / hmm* segment the whole array once; an unknown method raises; pool results are consumed through '
+              "Executor.map; (D6) neither do_segmentation nor _do_segmentation may mutate the caller's array (effects fix-point). (D3b) the bins "
+              'reaching the segmenter are those surviving every enabled filter, a null-coverage bin being one with the placeholder log2 or with '
+              'depth 0. Does not decide sortedness / non-overlap / probe sums of haar and HMM output, nor which bins the outlier filter drops.')
 TECHNIQUE = "copy-on-write lost-write lint + must-flow; index-kind lint; abstract interpretation of the aggregation; registry / effect rules"
 
 TF = "cnvlib.segmentation.transfer_fields"
